@@ -704,3 +704,130 @@ def first_diff(model_obs, impl_obs):
                         break
             return k, where, a, b
     return None
+
+
+# ---------------------------------------------------------------------------
+# live runs: the real component (Config::run: run loop with its view timer, proposer loop, inbound
+# queue) of every node on one manual clock, the harness being the network; monitors only
+
+def gen_live(rng, opts):
+    g = Gen(rng, opts)
+    c, honest, byz, f = g.committee()
+    N = len(honest)
+    wt = dict(c)
+    script = [{"t": "tick", "ms": rng.range(1, 50)}]
+    stopped = set()
+    kinds = {}
+
+    def note(k):
+        kinds[k] = kinds.get(k, 0) + 1
+
+    for _ in range(rng.range(3, opts.get("live_phases", 8))):
+        z = rng.below(10)
+        if z < 3:
+            ks = rng.shuffle(list(range(N)))
+            cut = rng.range(1, N - 1)
+            script.append({"t": "cut", "groups": [sorted(ks[:cut]), sorted(ks[cut:])]})
+            note("live:partition")
+        elif z == 3:
+            script.append({"t": "cut", "groups": [sorted(set(range(N)) - {rng.below(N)})]})
+            note("live:isolate_one")
+        elif z < 6:
+            script.append({"t": "drop", "pct": rng.choice([20, 40, 60, 90])})
+            note("live:drops")
+        elif z == 6:
+            script.append({"t": "heal"})
+            note("live:heal")
+        elif z == 7 and len(stopped) < 2:
+            k = rng.below(N)
+            stopped.add(k)
+            script.append({"t": "stop", "k": k})
+            note("live:stop")
+        elif z == 8 and stopped:
+            k = rng.choice(sorted(stopped))
+            stopped.discard(k)
+            script.append({"t": "start", "k": k})
+            note("live:restart")
+        for _ in range(rng.range(1, 3)):
+            script.append({"t": "tick", "ms": rng.choice([200, 600, 1001, 1001, 1700])})
+        if rng.chance(1, 4):
+            script.append({"t": "sync"})
+    # the good period
+    faulty = wt[byz] if byz is not None else 0
+    for k in sorted(stopped):
+        if faulty + wt[honest[k]] > f or rng.chance(1, 2):
+            script.append({"t": "start", "k": k})
+            stopped.discard(k)
+        else:
+            faulty += wt[honest[k]]
+    script.append({"t": "heal"})
+    suffix_start = len(script)
+    meta = {"byz": byz, "f": f, "down": sorted(stopped), "suffix_start": suffix_start}
+    kf = faulty_run({"_c": c, "_meta": meta, "nodes": honest})
+    for _ in range(round_bound(kf) + 2):
+        script.append({"t": "tick", "ms": 1001})
+        script.append({"t": "sync"})
+    return {"committee": M.committee_json(c), "nodes": honest, "first_block": str(rng.choice([0, 0, 3])),
+            "live_seed": rng.next() >> 1, "script": script, "_c": c, "_meta": meta, "_kinds": kinds}
+
+
+def live_monitors(case, out):
+    bad = []
+    meta = case["_meta"]
+    if out.get("hang") or "live" not in out:
+        return [{"monitor": "C06", "failed": "the live run hung (watchdog) or the harness crashed: " + json.dumps(out)[:200]}], {}
+    F = int(case["first_block"])
+    by_num = {}
+    for k, bl in enumerate(out["blocks"]):
+        for n, (num, p) in enumerate(bl):
+            if int(num) != F + n:
+                bad.append({"monitor": "C01", "failed": f"live: node {k}: queued block numbers are not consecutive at position {n}"})
+            by_num.setdefault(int(num), set()).add(p)
+    for num, ps in by_num.items():
+        if len(ps) > 1:
+            bad.append({"monitor": "C01", "failed": f"live: block {num} committed with different payloads {sorted(ps)}"})
+    # heights after every (tick, sync) pair of the suffix
+    ss = meta["suffix_start"]
+    kf = faulty_run(case)
+    R = round_bound(kf)
+    hs = [out["live"][ss]]
+    i = ss
+    while i + 2 < len(out["live"]):
+        i += 2
+        hs.append(out["live"][i])
+    worst = 0
+    for k in range(len(case["nodes"])):
+        if k in meta["down"]:
+            continue
+        for s0 in range(len(hs) - 1):
+            r = next((r for r in range(s0 + 1, len(hs)) if hs[r][k][1] > hs[s0][k][1]), None)
+            if r is None:
+                if len(hs) - 1 - s0 >= R:
+                    bad.append({"monitor": "C06", "failed": f"live: node {k} committed no new block in the {len(hs) - 1 - s0} view timeouts after tick {s0} of the good period (bound R({kf}) = {R})"})
+                    break
+            else:
+                worst = max(worst, r - s0)
+                if r - s0 > R:
+                    bad.append({"monitor": "C06", "failed": f"live: node {k} needed {r - s0} view timeouts to commit a new block (bound R({kf}) = {R})"})
+                    break
+    return bad, {"faulty_run": kf, "R": R, "ticks_needed": worst, "ticks": len(hs) - 1}
+
+
+def run_live_cases(opts, n, rng):
+    cases = [gen_live(rng.fork(), opts) for _ in range(n)]
+    env_wd = str(opts.get("live_watchdog_s", 120))
+    os.environ["SIM_WATCHDOG_S"] = env_wd
+    try:
+        with ThreadPoolExecutor(max_workers=opts.get("workers", 12)) as ex:
+            outs = list(ex.map(lambda c: common.run_impl("sim", [strip(c)], "dev")[0], cases))
+    finally:
+        os.environ.pop("SIM_WATCHDOG_S", None)
+    fails, stats, kinds = [], [], {}
+    for i, (c, o) in enumerate(zip(cases, outs)):
+        bad, st = live_monitors(c, o)
+        stats.append(st)
+        for k, v in c["_kinds"].items():
+            kinds[k] = kinds.get(k, 0) + v
+        for b in bad:
+            fails.append({"case": strip(c), "meta": c["_meta"], "case_index": i, "live": True, **b})
+    return {"cases": cases, "outs": outs, "fails": fails, "stats": stats, "kinds": kinds}
